@@ -1,25 +1,25 @@
 """C18 — results do not depend on the build profile."""
 from core import report
 from core.sm9 import Repo
-from . import shared, profile, convert
+from . import shared, profile, conv2 as convert
 from .c08 import SPEC as C08_SPEC
 from .c13 import SPEC as C13_SPEC, TOTAL_EXTRA
 
 
 def run(ctx):
     repo_d, repo_r = Repo(ctx.dev), Repo(ctx.rel)
-    rules = [profile.rule_profile_diff("C18", repo_d, repo_r, convert.make_lensim)]
+    rules = [profile.rule_profile_diff("C18", repo_d, repo_r, convert.make_conv)]
     # identical outcome maps of every byte-level entry point in both profiles
     spec = dict(C08_SPEC)
     spec.update(C13_SPEC)
     res = {}
     for cfg, repo in (("dev", repo_d), ("rel", repo_r)):
-        ls = convert.make_lensim(repo)
+        ls = convert.make_conv(repo)
         res[cfg] = {}
         for path in list(spec) + TOTAL_EXTRA:
             b = repo.F.bodies.get(path)
             if b is not None:
-                res[cfg][path] = convert.explore(ls, b)
+                res[cfg][path] = ls.explore(b)
     r = report.Rule("R-PROFILE-EQ", "every byte-level entry point has the same (accept / reject / panic) outcome for every abstract input in the dev and release MIR", floor=20, exhaustive=True)
     for path in sorted(set(res["dev"]) | set(res["rel"])):
         r.instance()
